@@ -71,7 +71,13 @@ Nest3K == { [stmts |-> <<ForS("", "x", ArrE(<<IntE(10), IntE(20)>>), NoE,
              assigned |-> {}, locals |-> {"x", "y", "loop"}, kind |-> "for-for-read", scoped |-> TRUE],
             [stmts |-> <<ForS("", "x", ArrE(<<IntE(10), IntE(20)>>), NoE, <<PrintS(AttrCall(NameE("_self"), "m", <<StrE("arg")>>)), PStr("in")>>, <<>>, FALSE)>>,
              macro |-> MacroS("m", <<"x">>, <<ForS("", "w", ArrE(<<IntE(1)>>), NoE, <<PStr("in2"), PrintS(NameE("x"))>>, <<>>, FALSE)>>),
-             assigned |-> {}, locals |-> {"x", "w", "loop"}, kind |-> "macro", scoped |-> TRUE] }
+             assigned |-> {}, locals |-> {"x", "w", "loop"}, kind |-> "macro", scoped |-> TRUE],
+            (* a macro call among the later arguments of a macro call, repeatedly: each call binds its own parameters to its own
+               arguments, which shadow the outer x and y *)
+            [stmts |-> <<ForS("", "w", ArrE(<<IntE(1), IntE(2)>>), NoE,
+                            <<PrintS(AttrCall(NameE("_self"), "m", <<StrE("arg"), AttrCall(NameE("_self"), "m", <<StrE("ia"), NameE("w")>>)>>)), PStr("in")>>, <<>>, FALSE)>>,
+             macro |-> MacroS("m", <<"x", "y">>, <<PStr("in2"), Text("<"), PrintS(NameE("x")), Text("/"), PrintS(NameE("y")), Text(">")>>),
+             assigned |-> {}, locals |-> {"x", "y", "w", "loop"}, kind |-> "macro", scoped |-> TRUE] }
 Ks == ForKOK \cup IfK \cup SetK \cup MacroK \cup Nest3K \cup (IF Deep THEN NestK ELSE {c \in NestK : c.kind = "for-if" \/ c.stmts[1].body[1].vn = "y"})
 
 Program(pre, c) ==
